@@ -195,6 +195,18 @@ int main(int argc, char** argv) {
         if (rank == 0) { mpi::request r = c.isend(1, 0, v, 3); r.wait(); v[0] = -1; }   // modified only after completion: receiver must see 7
         else { c.recv(0, 0, b, 3); CHECK(b[0] == 7 && b[2] == 9); }
     }, nullptr});
+    S.push_back({"C API: Sendrecv ring, Iprobe, Test, Allgather, Comm_split; all_to_all, test_any", 3, "ok", [](int rank, std::vector<std::string>& msgs) {
+        mpi::communicator c; int P = c.size(); int out = rank * 7, in = -1; MPI_Status st;
+        MPI_Sendrecv(&out, 1, MPI_INT, (rank + 1) % P, 5, &in, 1, MPI_INT, (rank + P - 1) % P, 5, c, &st);
+        CHECK(in == ((rank + P - 1) % P) * 7 && st.MPI_SOURCE == (rank + P - 1) % P);
+        int all[3] = {-1, -1, -1}; MPI_Allgather(&rank, 1, MPI_INT, all, 1, MPI_INT, c); CHECK(all[0] == 0 && all[2] == 2);
+        MPI_Comm sub; MPI_Comm_split(c, rank == 0 ? 0 : 1, rank, &sub); int sr, ss; MPI_Comm_rank(sub, &sr); MPI_Comm_size(sub, &ss); CHECK(ss == (rank == 0 ? 1 : 2)); CHECK(sr == (rank == 2 ? 1 : 0));
+        if (rank == 0) { int v = 42; MPI_Send(&v, 1, MPI_INT, 1, 9, c); }
+        if (rank == 1) { int flag = 0; while (!flag) MPI_Iprobe(0, 9, c, &flag, &st); int v = 0; MPI_Request r; MPI_Irecv(&v, 1, MPI_INT, 0, 9, c, &r); int done = 0; while (!done) MPI_Test(&r, &done, &st); CHECK(v == 42); }
+        std::vector<int> row(P), col; for (int i = 0; i < P; i++) row[i] = rank * 10 + i; mpi::all_to_all(c, row, col); for (int i = 0; i < P; i++) CHECK(col[i] == i * 10 + rank);
+        int a = 0; std::vector<mpi::request> rq; if (rank == 2) { rq.push_back(c.irecv(0, 11, a)); } if (rank == 0) c.send(2, 11, 5);
+        if (rank == 2) { while (!mpi::test_any(rq.begin(), rq.end())) {} CHECK(a == 5); }
+    }, nullptr});
     S.push_back({"ping-pong forever hits step budget", 2, "step-budget", [](int rank, std::vector<std::string>& msgs) {
         mpi::communicator c; int x = 0; for (;;) { if (rank == 0) { c.send(1, 0, x); c.recv(1, 0, x); } else { c.recv(0, 0, x); c.send(0, 0, x); } }
     }, nullptr});
